@@ -19,7 +19,10 @@ bin/ddpverif --tier thorough "$prop"; code=$?
 # ---- rule self-test (never changes the verdict on /repo) ----
 # a seeded change that the later fix: commits made inapplicable has a patch.rebased.diff (same change on the current tree);
 # seeds recorded as not decided by the rules (meta.json detected_by starts with "missed" or "superseded") are not replayed
-patches=$(ls mutants/"$prop"/*.diff mutants/"$prop"/*.patch refactorings/*.diff 2>/dev/null
+# behaviour-preserving edits: those that touch a file the property is anchored in (properties.jsonl); the full cross product
+# of all edits and all checks is what tools/refactor_check.sh runs
+refs=$(python3 /verif/tools/relevant_refactorings.py "$prop")
+patches=$(ls mutants/"$prop"/*.diff mutants/"$prop"/*.patch 2>/dev/null; printf '%s\n' $refs
   for d in seeded/"$prop"-*/; do [ -d "$d" ] || continue
     if python3 -c "import json,sys; m=json.load(open('$d/meta.json')); sys.exit(0 if str(m.get('detected_by','')).lower().startswith(('missed','superseded')) else 1)" 2>/dev/null; then continue; fi
     if [ -f "$d/patch.rebased.diff" ]; then echo "$d/patch.rebased.diff"; else echo "$d/patch.diff"; fi
